@@ -3820,22 +3820,51 @@ func checkElementsThroughCodec(r *Reporter, p *Prog) {
 	info := pk.TypesInfo
 	nEnc := 0
 	for _, fd := range p.AllFuncDecls(pkgSerix) {
-		if fd.Body == nil || strings.HasSuffix(p.Fset.Position(fd.Pos()).Filename, "_test.go") || fd.Name.Name == "encodeSliceOfBytes" {
+		if fd.Body == nil || strings.HasSuffix(p.Fset.Position(fd.Pos()).Filename, "_test.go") {
 			continue
 		}
 		// the function's own statements (helpers not spliced: a helper that is a method of the API is an origin)
 		f := newFuncCFGPlain(p, info, fd.Body, funcKey(pkgSerix, fd))
-		for _, c := range f.Calls(func(c *ast.CallExpr) bool {
+		// the sequence writer, by role: the unexported function or method of this package that takes the
+		// element encodings as a [][]byte (today encodeSliceOfBytes); collArg: the position of that parameter
+		collArg := func(c *ast.CallExpr) int {
 			fn := staticCallee(info, c)
-			return fn != nil && funcName(fn) == "encodeSliceOfBytes" && len(c.Args) >= 1
-		}) {
+			if fn == nil || fn.Exported() || fn.Pkg() == nil || fn.Pkg() != pk.Types {
+				return -1
+			}
+			sig, _ := fn.Type().(*types.Signature)
+			if sig == nil {
+				return -1
+			}
+			for k := 0; k < sig.Params().Len() && k < len(c.Args); k++ {
+				if sl, ok := sig.Params().At(k).Type().Underlying().(*types.Slice); ok {
+					if in, ok := sl.Elem().Underlying().(*types.Slice); ok {
+						if b, ok := in.Elem().Underlying().(*types.Basic); ok && b.Kind() == types.Byte {
+							return k
+						}
+					}
+				}
+			}
+			return -1
+		}
+		for _, c := range f.Calls(func(c *ast.CallExpr) bool { return collArg(c) >= 0 }) {
 			_, found := f.PointOf(c)
 			if !found {
 				continue
 			}
+			coll := objOfIdent(info, c.Args[collArg(c)])
+			if coll != nil {
+				// a parameter handed on (the sequence writer's own helpers): not an element producer
+				isParam := false
+				for _, po := range paramObjs(info, fd) {
+					isParam = isParam || po == coll
+				}
+				if isParam {
+					continue
+				}
+			}
 			nEnc++
 			key := funcKey(pkgSerix, fd)
-			coll := objOfIdent(info, c.Args[0])
 			if coll == nil {
 				r.Fail("encode/elements-through-codec", key, p.posStr(c.Pos()), "the collection of element encodings is not a local variable: cannot follow its elements")
 				continue
@@ -3852,6 +3881,31 @@ func checkElementsThroughCodec(r *Reporter, p *Prog) {
 							if sig, _ := fn.Type().(*types.Signature); sig != nil && sig.Recv() != nil && shortTypeName(typeName(sig.Recv().Type())) == "API" {
 								okOrigin = true
 							}
+						}
+					}
+					if !okOrigin {
+						// an out-parameter: the local's address is handed to a method of the API, which fills it
+						if v := objOfIdent(info, o.E); v != nil {
+							ast.Inspect(fd.Body, func(n ast.Node) bool {
+								oc, isCall := n.(*ast.CallExpr)
+								if !isCall || okOrigin {
+									return !okOrigin
+								}
+								fn := staticCallee(info, oc)
+								if fn == nil {
+									return true
+								}
+								sig, _ := fn.Type().(*types.Signature)
+								if sig == nil || sig.Recv() == nil || shortTypeName(typeName(sig.Recv().Type())) != "API" {
+									return true
+								}
+								for _, a := range oc.Args {
+									if u, isU := ast.Unparen(a).(*ast.UnaryExpr); isU && u.Op == token.AND && objOfIdent(info, u.X) == v {
+										okOrigin = true
+									}
+								}
+								return true
+							})
 						}
 					}
 					if !okOrigin {
